@@ -15,7 +15,7 @@ struct Rng(u64);
 impl Rng { fn next(&mut self) -> u64 { self.0 ^= self.0 << 13; self.0 ^= self.0 >> 7; self.0 ^= self.0 << 17; self.0 } fn below(&mut self, n: u64) -> u64 { if n == 0 { 0 } else { self.next() % n } } }
 
 #[derive(Clone, Debug)]
-enum Op { Campaign, Tick(u64), Propose, ReadyAsync, ReadySync, Notify(u64), VoteReq(u64, u64, bool), Heartbeat(u64, u64), VoteResp(u64, bool), ReqSnap, Snap(u64), Append }
+enum Op { Campaign, Tick(u64), Propose, ReadyAsync, ReadySync, Notify(u64), VoteReq(u64, u64, bool), Heartbeat(u64, u64), VoteResp(u64, bool), ReqSnap, Snap(u64), Append, Crash(u64), Compact }
 
 // --prop C20: only panics are reported (no library call may panic under contract-abiding use); default (C06): only the
 // persist-before-send checks are reported and a panicking case is abandoned
@@ -23,6 +23,32 @@ static mut PANICS_ONLY: bool = false;
 fn panics_only() -> bool { unsafe { PANICS_ONLY } }
 macro_rules! guard { ($what:expr, $e:expr) => { match std::panic::catch_unwind(std::panic::AssertUnwindSafe(|| $e)) { Ok(v) => v, Err(_) => return if panics_only() { Some(format!("{} panicked", $what)) } else { Some(String::new()) } } } }
 
+type Writes = (Option<Snapshot>, Vec<Entry>, Option<HardState>);
+fn apply_writes(st: &MemStorage, w: &Writes) {
+    if let Some(s) = &w.0 { let _ = st.wl().apply_snapshot(s.clone()); }
+    if !w.1.is_empty() { let first = st.first_index().unwrap(); let ents: Vec<Entry> = w.1.iter().filter(|e| e.index >= first).cloned().collect(); if !ents.is_empty() && ents[0].index <= st.last_index().unwrap() + 1 { st.wl().append(&ents).unwrap(); } }
+    if let Some(hs) = &w.2 { let mut h = hs.clone(); let last = st.last_index().unwrap(); if h.commit > last { h.commit = last; } st.wl().set_hardstate(h); }
+}
+// an independent storage holding exactly what `src` holds (the image a process finds after a crash)
+fn deep_copy(src: &MemStorage) -> MemStorage {
+    let st = src.initial_state().unwrap(); let first = src.first_index().unwrap(); let last = src.last_index().unwrap();
+    let ns = MemStorage::new(); ns.wl().set_conf_state(st.conf_state.clone());
+    if first > 1 { let mut snap = Snapshot::default(); snap.mut_metadata().index = first - 1; snap.mut_metadata().term = src.term(first - 1).unwrap(); snap.mut_metadata().set_conf_state(st.conf_state.clone()); ns.wl().apply_snapshot(snap).unwrap(); }
+    if last >= first { let ents = src.entries(first, last + 1, None, raft::GetEntriesContext::empty(false)).unwrap(); ns.wl().append(&ents).unwrap(); }
+    ns.wl().set_hardstate(st.hard_state.clone());
+    ns
+}
+// promises told to other nodes so far: the highest term of any released message, and the receiver of this node's vote per term
+struct Told { term: u64, votes: std::collections::BTreeMap<u64, u64> }
+fn note_told(what: &str, msgs: &[Message], told: &mut Told) -> Option<String> {
+    for m in msgs {
+        match m.get_msg_type() { MessageType::MsgRequestPreVote | MessageType::MsgRequestPreVoteResponse => continue, _ => {} }
+        if m.term > told.term { told.term = m.term; }
+        let vote_for = match m.get_msg_type() { MessageType::MsgRequestVote => Some(m.from), MessageType::MsgRequestVoteResponse if !m.reject => Some(m.to), _ => None };
+        if let Some(x) = vote_for { match told.votes.get(&m.term) { Some(y) if *y != x => return Some(format!("{}: this node's vote in term {} was told to go to {} and now to {} (across restarts)", what, m.term, y, x)), _ => { told.votes.insert(m.term, x); } } }
+    }
+    None
+}
 fn check_msgs(what: &str, msgs: &[Message], durable: (u64, u64), sent: &mut Vec<(u64, u64, bool)>) -> Option<String> {
     for m in msgs {
         if panics_only() { match m.get_msg_type() { MessageType::MsgRequestVote => sent.push((m.to, m.term, false)), MessageType::MsgRequestPreVote => sent.push((m.to, m.term, true)), _ => {} } continue; }
@@ -44,6 +70,9 @@ fn run(lone: bool, ops: &[Op]) -> Option<String> {
     let cfg = Config { id: 1, election_tick: 10, heartbeat_tick: 1, max_size_per_msg: 1 << 20, max_inflight_msgs: 16, pre_vote: flavour % 2 == 0, priority: if flavour % 3 == 0 { 5 } else { 0 }, ..Default::default() };
     let mut n = RawNode::new(&cfg, store.clone(), &logger).unwrap();
     let mut durable: (u64, u64) = (0, 0);
+    let image = deep_copy(&store);      // what stable storage durably holds (writes of a Ready reach it when that Ready is reported durable)
+    let mut store = store; let mut told = Told { term: 0, votes: Default::default() }; let mut app_applied: u64 = 0;
+    let mut wpending: Vec<(u64, Writes)> = vec![];
     let mut cur_hs: (u64, u64) = (0, 0);                       // newest HardState handed to the application
     let mut pending: Vec<(u64, (u64, u64), Vec<Message>)> = vec![];
     let mut sent: Vec<(u64, u64, bool)> = vec![];    // vote requests released so far: (to, term, pre-vote)   // Ready number, hard state as of that Ready, its persisted messages
@@ -67,7 +96,7 @@ fn run(lone: bool, ops: &[Op]) -> Option<String> {
                     let mut m = Message::default();
                     m.set_msg_type(if n.raft.state == StateRole::PreCandidate { MessageType::MsgRequestPreVoteResponse } else { MessageType::MsgRequestVoteResponse });
                     m.from = 2 + from % 2; m.to = 1; m.term = if n.raft.state == StateRole::PreCandidate { n.raft.term + 1 } else { n.raft.term }; m.reject = *reject;
-                    if !sent.contains(&(m.from, m.term, n.raft.state == StateRole::PreCandidate)) { return None; }   // nothing to answer yet
+ if *reject { let li = n.raft.raft_log.last_index(); if let Ok(t) = n.raft.raft_log.term(li) { if t > 0 { m.commit = li; m.commit_term = t; } } }                    if !sent.contains(&(m.from, m.term, n.raft.state == StateRole::PreCandidate)) { return None; }   // nothing to answer yet
                     let _ = guard!("step", n.step(m));
                 }
                 Op::Append => {
@@ -79,12 +108,38 @@ fn run(lone: bool, ops: &[Op]) -> Option<String> {
                     let mut m = Message::default(); m.set_msg_type(MessageType::MsgAppend); m.from = from; m.to = 1; m.term = n.raft.term; m.index = li; m.log_term = lt; m.commit = li + 1; m.set_entries(vec![e].into());
                     let _ = guard!("step", n.step(m));
                 }
+                Op::Compact => {
+                    // the application compacts what it has applied (allowed: up to its applied index), in the live storage and in the durable image
+                    for st in [&store, &image] { let (f, l) = (st.first_index().unwrap(), st.last_index().unwrap()); if app_applied > f && app_applied <= l + 1 && st.initial_state().unwrap().hard_state.commit + 1 >= app_applied { let _ = st.wl().compact(app_applied); } }
+                }
+                Op::Crash(part) => {
+                    // the process dies: everything not reported durable is lost - except that the write of the OLDEST unfinished Ready may have
+                    // got part of the way (documented order: snapshot, entries, hard state); it restarts from the durable image
+                    if let Some((_, w)) = wpending.first() { match part % 3 { 1 => apply_writes(&image, &(w.0.clone(), vec![], None)), 2 => apply_writes(&image, &(w.0.clone(), w.1.clone(), None)), _ => {} } }
+                    pending.clear(); wpending.clear();
+                    let ns = deep_copy(&image);
+                    let snap_idx = ns.first_index().unwrap() - 1;
+                    let applied = app_applied.min(ns.last_index().unwrap()).max(snap_idx);
+                    app_applied = applied;
+                    let rcfg = Config { applied, ..cfg.clone() };
+                    let nn = guard!("RawNode::new (restart)", RawNode::new(&rcfg, ns.clone(), &logger));
+                    match nn { Ok(x) => { n = x; store = ns; } Err(_) => return Some(String::new()) }
+                    // the durable hard state is what the image holds (a partially written snapshot may have raised its term)
+                    let ihs = image.initial_state().unwrap().hard_state; durable = (ihs.term, ihs.vote); cur_hs = durable;
+                    if !panics_only() {
+                        if n.raft.term < told.term { return Some(format!("restarted at term {} although a message of term {} was released before the crash", n.raft.term, told.term)); }
+                        if let Some(x) = told.votes.get(&n.raft.term) { if n.raft.vote != *x { return Some(format!("restarted in term {} with vote {} although this node's vote in that term was told to go to {}", n.raft.term, n.raft.vote, x)); } }
+                    }
+                }
                 Op::ReqSnap => { let _ = guard!("request_snapshot", n.request_snapshot()); }
                 Op::Snap(back) => {
                     // the known leader answers with a snapshot of a committed position of this node's own log
                     let from = n.raft.leader_id; if from == 0 || from == 1 { return None; }
-                    let idx = n.raft.raft_log.committed.saturating_sub(*back); if idx == 0 { return None; }
-                    let t = match n.raft.raft_log.term(idx) { Ok(t) => t, Err(_) => return None };
+                    // a position of this node's own log around its commit index (0: at it, 1: below, 2 / 3: above), or 4: just beyond its log
+                    let c = n.raft.raft_log.committed; let last = n.raft.raft_log.last_index();
+                    let idx = match *back { 0 => c, 1 => c.saturating_sub(1), 2 => c + 1, 3 => c + 2, _ => last + 1 }; if idx == 0 { return None; }
+                    let t = if idx > last { if idx != last + 1 { return None; } let lt = n.raft.raft_log.last_term(); if lt == 0 { n.raft.term } else { lt } } else { match n.raft.raft_log.term(idx) { Ok(t) => t, Err(_) => return None } };
+                    if t == 0 { return None; }
                     let mut snap = Snapshot::default(); snap.mut_metadata().index = idx; snap.mut_metadata().term = t;
                     let mut cs = ConfState::default(); if lone { cs.set_voters(vec![1]); cs.set_learners(vec![2]); } else { cs.set_voters(vec![1, 2, 3]); }
                     snap.mut_metadata().set_conf_state(cs);
@@ -95,24 +150,29 @@ fn run(lone: bool, ops: &[Op]) -> Option<String> {
                     if !guard!("has_ready", n.has_ready()) { return None; }
                     let mut rd = guard!("ready", n.ready());
                     let num = rd.number();
-                    if !rd.snapshot().is_empty() { let _ = store.wl().apply_snapshot(rd.snapshot().clone()); }
+                    let w: Writes = (if rd.snapshot().is_empty() { None } else { Some(rd.snapshot().clone()) }, rd.entries().to_vec(), rd.hs().cloned());
+                    if !rd.snapshot().is_empty() { let _ = store.wl().apply_snapshot(rd.snapshot().clone()); app_applied = app_applied.max(rd.snapshot().get_metadata().index); }
                     if !rd.entries().is_empty() { store.wl().append(rd.entries()).unwrap(); }
                     if let Some(hs) = rd.hs() { store.wl().set_hardstate(hs.clone()); cur_hs = (hs.term, hs.vote); }
                     // messages() may be sent right now
                     if let Some(w) = check_msgs(&format!("Ready #{} messages()", num), rd.messages(), durable, &mut sent) { return Some(w); }
+                    if !panics_only() { if let Some(x) = note_told(&format!("Ready #{} messages()", num), rd.messages(), &mut told) { return Some(x); } }
                     let _ = rd.take_messages();
                     let pm = rd.take_persisted_messages();
-                    let _ = rd.take_committed_entries();
+                    for e in rd.take_committed_entries() { app_applied = app_applied.max(e.index); }
                     if matches!(op, Op::ReadySync) {
                         // everything up to this Ready is durable before its persisted messages go out and advance_append runs
                         durable = cur_hs; pending.clear();
+                        for (_, pw) in wpending.drain(..) { apply_writes(&image, &pw); } apply_writes(&image, &w);
                         if let Some(w) = check_msgs(&format!("Ready #{} persisted_messages()", num), &pm, durable, &mut sent) { return Some(w); }
+                        if !panics_only() { if let Some(x) = note_told(&format!("Ready #{} persisted_messages()", num), &pm, &mut told) { return Some(x); } }
                         let mut light = guard!("advance_append", n.advance_append(rd));
                         if let Some(c) = light.commit_index() { store.wl().mut_hard_state().set_commit(c); }
                         if let Some(w) = check_msgs(&format!("LightReady after #{} messages()", num), light.messages(), durable, &mut sent) { return Some(w); }
-                        let _ = light.take_messages(); let _ = light.take_committed_entries();
+                        if !panics_only() { if let Some(x) = note_told(&format!("LightReady after #{} messages()", num), light.messages(), &mut told) { return Some(x); } }
+                        let _ = light.take_messages(); for e in light.take_committed_entries() { app_applied = app_applied.max(e.index); }
                     } else {
-                        pending.push((num, cur_hs, pm));
+                        pending.push((num, cur_hs, pm)); wpending.push((num, w));
                         guard!("advance_append_async", n.advance_append_async(rd));
                     }
                     guard!("advance_apply", n.advance_apply());
@@ -123,9 +183,11 @@ fn run(lone: bool, ops: &[Op]) -> Option<String> {
                     // the IO pipeline finished every Ready up to `upto`: their hard state is durable, their persisted messages go out
                     let mut rest = vec![];
                     for (num, hs, pm) in pending.drain(..) {
-                        if num <= upto { durable = hs; if let Some(w) = check_msgs(&format!("Ready #{} persisted_messages()", num), &pm, durable, &mut sent) { return Some(w); } } else { rest.push((num, hs, pm)); }
+                        if num <= upto { durable = hs; if let Some(w) = check_msgs(&format!("Ready #{} persisted_messages()", num), &pm, durable, &mut sent) { return Some(w); }
+                            if !panics_only() { if let Some(x) = note_told(&format!("Ready #{} persisted_messages()", num), &pm, &mut told) { return Some(x); } } } else { rest.push((num, hs, pm)); }
                     }
                     pending = rest;
+                    let mut wrest = vec![]; for (num, pw) in wpending.drain(..) { if num <= upto { apply_writes(&image, &pw); } else { wrest.push((num, pw)); } } wpending = wrest;
                     guard!(format!("on_persist_ready({})", upto), n.on_persist_ready(upto));
                 }
             }
@@ -146,14 +208,14 @@ fn gen(rng: &mut Rng) -> (bool, Vec<Op>) {
         ops.push(Op::ReadySync); ops.push(Op::Heartbeat(0, 1 + rng.below(2))); ops.push(if rng.below(2) == 0 { Op::ReadySync } else { Op::ReadyAsync });
         if rng.below(4) != 0 { ops.push(Op::Append); ops.push(Op::ReadySync); }
         if rng.below(4) != 0 { ops.push(Op::ReqSnap); ops.push(if rng.below(2) == 0 { Op::ReadySync } else { Op::ReadyAsync }); }
-        ops.push(Op::Snap(rng.below(2)));
-        for _ in 0..(1 + rng.below(6)) { ops.push(match rng.below(6) { 0 | 1 => Op::ReadyAsync, 2 => Op::ReadySync, 3 => Op::Notify(rng.below(4)), 4 => Op::Tick(25), _ => Op::Campaign }); }
+        ops.push(Op::Snap(rng.below(5)));
+        for _ in 0..(1 + rng.below(6)) { ops.push(match rng.below(8) { 0 | 1 => Op::ReadyAsync, 2 => Op::ReadySync, 3 => Op::Notify(rng.below(4)), 4 => Op::Tick(25), 5 => Op::Crash(rng.below(3)), 6 => Op::Compact, _ => Op::Campaign }); }
         ops.push(Op::ReadyAsync);
         return (true, ops);
     }
     let n = 2 + rng.below(18); let mut ops = vec![];
-    for _ in 0..n { ops.push(match rng.below(17) { 0 | 1 => Op::Campaign, 2 => Op::Tick(1 + rng.below(25)), 3 => Op::Propose, 4..=6 => Op::ReadyAsync, 7 => Op::ReadySync, 8 | 9 => Op::Notify(rng.below(8)),
-        10 => Op::VoteReq(rng.below(2), 1 + rng.below(3), rng.below(3) == 0), 11 => Op::Heartbeat(rng.below(2), rng.below(3)), 12 | 13 => Op::VoteResp(rng.below(2), rng.below(4) == 0), 14 => Op::ReqSnap, 15 => Op::Append, _ => Op::Snap(rng.below(2)) }); }
+    for _ in 0..n { ops.push(match rng.below(19) { 0 | 1 => Op::Campaign, 2 => Op::Tick(1 + rng.below(25)), 3 => Op::Propose, 4..=6 => Op::ReadyAsync, 7 => Op::ReadySync, 8 | 9 => Op::Notify(rng.below(8)),
+        10 => Op::VoteReq(rng.below(2), 1 + rng.below(3), rng.below(3) == 0), 11 => Op::Heartbeat(rng.below(2), rng.below(3)), 12 | 13 => Op::VoteResp(rng.below(2), rng.below(4) == 0), 14 => Op::ReqSnap, 15 => Op::Append, 16 => Op::Crash(rng.below(3)), 17 => Op::Compact, _ => Op::Snap(rng.below(5)) }); }
     (rng.below(2) == 0, ops)
 }
 
